@@ -44,7 +44,9 @@ def main(argv):
     samples, fams = [], []
     for name, args in runs:
         cmds = [[exe, "shard=%d" % i, "nshards=%d" % NCPU] + args for i in range(NCPU)]
-        res = c.run_many(cmds)
+        # every shard holds the whole state space of its run (3.7 GB at depth 3, 4.7 GB at depth 4 in the thorough tier):
+        # six at a time stay well inside the machine's memory, sixteen do not
+        res = c.run_many(cmds, jobs=6 if (c.tier != "quick" and name in ("depth3", "depth4")) else None)
         fam = {"family": name, "args": args}
         first = True
         for (rc, val, err), cmd in zip(res, cmds):
